@@ -78,7 +78,7 @@ func goatRun(src string) (string, error) {
 }
 
 func goatRunRaw(src string) (out string, err error) {
-	var buf bytes.Buffer
+	var buf capBuf
 	vm := g.New(g.WithStdout(&buf))
 	defer func() {
 		if r := recover(); r != nil {
